@@ -617,6 +617,10 @@ def case_history(c: dict) -> dict:
     return r.result()
 
 
+# operations that leave state behind on the manager / its model class / module-level singletons
+DEPTH3_OPS = {"solveWall(s2)", "previous-benchmark-point", "other-grid-size", "second-model+particle", "findvwLTE-after-unconverged", "fastestDeflag"}
+
+
 def history_cases(tier):
     depth = 2 if tier == "quick" else 3
     ops = OPS if tier == "thorough" else [o for o in OPS if o != "solveWallDetonation(s1)"]
@@ -624,10 +628,10 @@ def history_cases(tier):
     hists = []
     for d in range(1, depth + 1):
         for h in itertools.product(ops, repeat=d):
-            if tier == "quick" and d == 2 and (set(h) & heavy) and not ({h[0], h[1]} & {"solveWall(s1)", "wallSpeedLTE", "solveWall(s2)"}):
-                continue  # quick: the two expensive operations are combined only with the solver calls
-            if tier == "thorough" and d == 3 and not ({"solveWall(s2)", "second-model+particle", "findvwLTE-after-unconverged", "potential-defaultInterpolation", "fastestDeflag"} & set(h)):
-                continue
+            if tier == "quick" and d == 2 and not set(h) <= DEPTH3_OPS:
+                continue  # quick: depth 1 over all operations, depth 2 over the six state-leaving operations
+            if tier == "thorough" and d == 3 and not set(h) <= DEPTH3_OPS:
+                continue  # depth 3 is complete over the six operations that leave state behind (see DEPTH3_OPS), depth 2 over all 13
             hists.append(list(h))
     # shard by first operation (and second for depth>=2 to balance)
     shards = {}
@@ -658,7 +662,7 @@ def run(ctx) -> None:
         if name == "history":
             ctx.add_bfs(states=sum(x.get("detail", {}).get("states", 0) for x in res), transitions=sum(x.get("detail", {}).get("transitions", 0) for x in res),
                         traces=sum(x.get("detail", {}).get("histories", 0) for x in res))
-            ctx.note("history_depth_completed", 2 if ctx.tier == "quick" else 3)
+            ctx.note("history_depth_completed", "1 over all 12 operations, 2 over the 6 state-leaving operations" if ctx.tier == "quick" else "2 over all 13 operations, 3 over the 6 state-leaving operations")
 
 
 def replay(rep: dict) -> dict:
